@@ -142,6 +142,9 @@ func parent(ck *checks.Check, tier string, seed int64, verif, scratch string) in
 				"-workers", fmt.Sprint(n), "-out", outp, "-verif", verif, "-scratch", scratch)
 			lf, _ := os.Create(logp)
 			cmd.Stdout, cmd.Stderr = lf, lf
+			if ck.ID == "C20" {
+				cmd.Env = append(os.Environ(), "GORACE=halt_on_error=0 log_path="+filepath.Join(scratch, "race.log"))
+			}
 			err := cmd.Run()
 			lf.Close()
 			mu.Lock()
@@ -172,6 +175,20 @@ func parent(ck *checks.Check, tier string, seed int64, verif, scratch string) in
 		}(w)
 	}
 	wg.Wait()
+
+	if ck.ID == "C20" {
+		lib, harnessOnly, totalReports := checks.C20RaceReports(scratch)
+		total.Counters["race-reports-total"] = totalReports
+		total.Counters["race-reports-harness-only"] = harnessOnly
+		total.Counters["race-reports-library-distinct"] = len(lib)
+		for _, key := range lib {
+			total.Violations = append(total.Violations, sim.VioRec{Violation: sim.Violation{Prop: "C20", Sig: "C20|data-race|" + key,
+				Msg: "the race detector reported a data race with library frames: " + key}, Index: 0, Detail: raceExcerpt(scratch, key)})
+		}
+		if harnessOnly > 0 {
+			total.Inconclusive = append(total.Inconclusive, fmt.Sprintf("%d race report(s) without a library frame (harness bug?)", harnessOnly))
+		}
+	}
 
 	// coverage floors
 	floors := map[string]int{}
@@ -294,6 +311,27 @@ func parent(ck *checks.Check, tier string, seed int64, verif, scratch string) in
 		return 2
 	}
 	return 0
+}
+
+// raceExcerpt returns the first race report block mentioning the key's first frame.
+func raceExcerpt(scratch, key string) string {
+	first := strings.SplitN(key, " <-> ", 2)[0]
+	files, _ := filepath.Glob(filepath.Join(scratch, "race.log.*"))
+	for _, f := range files {
+		b, err := os.ReadFile(f)
+		if err != nil {
+			continue
+		}
+		for _, blk := range strings.Split(string(b), "WARNING: DATA RACE")[1:] {
+			if strings.Contains(blk, first) {
+				if len(blk) > 4000 {
+					blk = blk[:4000]
+				}
+				return "WARNING: DATA RACE" + blk
+			}
+		}
+	}
+	return ""
 }
 
 func orNull(s string) string {
